@@ -12,7 +12,8 @@ from sv import core
 
 PROPERTY = "C09"
 GEN = ["Contingency"]
-PROPS = ["ScoresVerif/Props/C09.lean"]
+PROPS = ["ScoresVerif/Props/C09.lean", "ScoresVerif/Props/C09Zero.lean"]
+AUDIT_FILES = ["ScoresVerif/Lemmas/C09Zero.lean"]
 DRIVER_DEPS = ["ScoresVerif.Driver.C09"]
 LEVEL = "proof"
 TRUSTED = ["numpy log (libm) for SEDI: log is an uninterpreted function in the theorems"]
